@@ -15,13 +15,17 @@ LEN1 == 64
 LEN2 == 3
 WLEN == 67
 
+\* TLC evaluates [i \in S |-> e] lazily (e again at every application): results of real work that are
+\* indexed more than once are materialised as sequences
+ForceSeq(f, n) == FoldLeft(LAMBDA acc, i : Append(acc, f[i]), <<>>, [i \in 1..n |-> i])
+
 Zeros(n) == [i \in 1..n |-> 0]
 \* misc.ToByteLittleEndian (despite its name: most significant byte first), x < 2^32
-ToByte(x, n) == [i \in 1..n |-> IF i > n - 4 THEN (x \div 256^(n - i)) % 256 ELSE 0]
+ToByte(x, n) == ForceSeq([i \in 1..n |-> IF i > n - 4 THEN (x \div 256^(n - i)) % 256 ELSE 0], n)
 \* misc.AddrToByte: eight 32-bit words, each most significant byte first
 AddrBytes(addr) == ToByte(addr[1], 4) \o ToByte(addr[2], 4) \o ToByte(addr[3], 4) \o ToByte(addr[4], 4)
                    \o ToByte(addr[5], 4) \o ToByte(addr[6], 4) \o ToByte(addr[7], 4) \o ToByte(addr[8], 4)
-XorBytes(a, b) == [i \in 1..Len(a) |-> a[i] ^^ b[i]]
+XorBytes(a, b) == ForceSeq([i \in 1..Len(a) |-> a[i] ^^ b[i]], Len(a))
 
 \* hash.go coreHash: Hash_hf(toByte(type, 32) || key || in)
 Core(hf, type, key, in) == Hash(hf, ToByte(type, NB) \o key \o in, NB)
@@ -63,7 +67,7 @@ Chain(hf, x, start, steps, pub, i, c) ==
 
 WotsPk(hf, skSeed, pub, i) ==
   LET os == OtsSeed(hf, skSeed, i)
-  IN [c \in 1..WLEN |-> Chain(hf, WotsSk(hf, os, c - 1), 0, WW - 1, pub, i, c - 1)]
+  IN ForceSeq([c \in 1..WLEN |-> Chain(hf, WotsSk(hf, os, c - 1), 0, WW - 1, pub, i, c - 1)], WLEN)
 
 \* lTree: pairwise hashing level by level, an odd last node is lifted unchanged
 RECURSIVE LTree(_, _, _, _, _)
@@ -71,7 +75,7 @@ LTree(hf, nodes, pub, i, height) ==
   IF Len(nodes) = 1 THEN nodes[1]
   ELSE LET l == Len(nodes)
            half == l \div 2
-           up == [j \in 1..half |-> H(hf, nodes[2 * j - 1], nodes[2 * j], pub, LTreeAddr(i, height, j - 1))]
+           up == ForceSeq([j \in 1..half |-> H(hf, nodes[2 * j - 1], nodes[2 * j], pub, LTreeAddr(i, height, j - 1))], half)
            next == IF l % 2 = 1 THEN Append(up, nodes[l]) ELSE up
        IN LTree(hf, next, pub, i, height + 1)
 
@@ -82,7 +86,7 @@ RECURSIVE BuildLevels(_, _, _, _)
 BuildLevels(hf, levels, pub, height) ==
   LET cur == levels[Len(levels)]
   IN IF Len(cur) = 1 THEN levels
-     ELSE BuildLevels(hf, Append(levels, [k \in 1..(Len(cur) \div 2) |-> H(hf, cur[2 * k - 1], cur[2 * k], pub, NodeAddr(height, k - 1))]),
+     ELSE BuildLevels(hf, Append(levels, ForceSeq([k \in 1..(Len(cur) \div 2) |-> H(hf, cur[2 * k - 1], cur[2 * k], pub, NodeAddr(height, k - 1))], Len(cur) \div 2)),
                       pub, height + 1)
 TreeLevels(hf, leaves, pub) == BuildLevels(hf, <<leaves>>, pub, 0)
 RootOf(levels) == levels[Len(levels)][1]
@@ -91,7 +95,7 @@ PublicKey(hf, height, root, pub) == Encode(hf, XMSSSig, height, SHA256_2X) \o ro
 
 \* ---------------------------------------------------------------- signing
 \* base-w digits: two nibbles per byte, high nibble first
-Digits(bytes, n) == [d \in 1..n |-> IF d % 2 = 1 THEN bytes[(d + 1) \div 2] \div 16 ELSE bytes[d \div 2] % 16]
+Digits(bytes, n) == ForceSeq([d \in 1..n |-> IF d % 2 = 1 THEN bytes[(d + 1) \div 2] \div 16 ELSE bytes[d \div 2] % 16], n)
 Checksum(d64) == FoldLeft(LAMBDA acc, x : acc + (WW - 1 - x), 0, d64)
 \* csum << 4, written as 2 bytes most significant first, then 3 base-w digits
 AllDigits(msgHash) ==
